@@ -187,7 +187,9 @@ class Ch:
 
     def __exit__(self, t, v, tb):
         F("exit")
-        return False
+        # with an exception in flight the answer is an object whose truth test is itself a fault point (and whose
+        # parity decides whether the exception is suppressed)
+        return False if t is None else Ch(self.v + 8)
 
 
 class ChM(Ch):
